@@ -351,7 +351,7 @@ func checkC11(c *Ctx) {
 		}
 		if s.Kind == Derived {
 			for _, cal := range u.Callees(s.Site) {
-				if u.InUniverse(cal) && reachesFooter(cal) && !strings.HasSuffix(s.Callee, "readRowGroup") {
+				if u.InUniverse(cal) && reachesFooter(cal) && !calleeIsRowGroupReader(u, s) {
 					return true
 				}
 			}
@@ -805,4 +805,17 @@ func footerPathFns(c *Ctx) []*ssa.Function {
 	}
 	sort.Slice(fns, func(i, j int) bool { return fns[i].String() < fns[j].String() })
 	return fns
+}
+
+// calleeIsRowGroupReader: the call site's callee is the generated reader's row-group loader (it reaches the footer only
+// through the constructor's own earlier call).
+func calleeIsRowGroupReader(u *Universe, s *OpSite) bool {
+	for _, cal := range u.Callees(s.Site) {
+		for _, p := range u.TC {
+			if cal == roleFunc(u, p, "readRowGroup") {
+				return true
+			}
+		}
+	}
+	return false
 }
